@@ -137,7 +137,8 @@ struct LCC {
     if (!one && (p1.c == 0 || p2.c == 0)) { ok = false; return; }     // singular (documented to throw)
     if (one) n = p1.s;                                                 // Snyder: n = sin(phi1)
     else n = logq(E.m(p1) / E.m(p2)) / (E.psi(p2) - E.psi(p1));        // (15-8) with ln t = -psi
-    if (n > 1) n = 1; if (n < -1) n = -1;
+    if (n > 1) n = 1;
+    if (n < -1) n = -1;
     Q om = 1 - fabsq(n);                                               // 1 - |n|
     if (!one && p1.s * p2.s > 0 && fabsq(p1.s) > 0.5Q && fabsq(p2.s) > 0.5Q) {
       // both parallels in one polar cap: 1 - |n| from the quotient above loses its leading digits.  With
@@ -191,6 +192,9 @@ struct Albers {
   Albers(const Ell& e, SC p1, SC p2, Q k1_) : E(e), k1(k1_) {
     ok = true; apex = 0;
     if (p1.c == 0 && p2.c == 0 && p1.s * p2.s < 0) { ok = false; return; }   // opposite poles: documented to throw
+    // two parallels both within 1e-100 rad of the same pole are indistinguishable from that pole to 1e-100 a, far below
+    // binary128 resolution of the differences formed below: use the pole itself (azimuthal limit)
+    if (p1.c < 1e-100Q && p2.c < 1e-100Q && p1.s * p2.s > 0) { p1.c = p2.c = 0; p1.s = p2.s = p1.s > 0 ? 1 : -1; }
     bool one = same(p1, p2);
     Q m1 = E.m(p1), m2 = E.m(p2);
     if (one) ns = p1.s; else ns = (m1 * m1 - m2 * m2) / E.qdiff(p2, p1);     // (14-14)
